@@ -232,7 +232,9 @@ pub fn reg_event(uid: Uid, call: RegCall, ok: bool, injected: bool) {
                     let is_reg = call == RegCall::Register;
                     for c in s.fds.iter_mut() {
                         if is_reg && c.child == ChildSt::Disabled {
+                            // (a disabled sub-source comes back at a fresh registration: the ones after it move up)
                             c.child = ChildSt::Kept;
+                            s.layout_changed_at = d;
                         }
                         if c.child_pending != ChildSt::Kept {
                             c.child = c.child_pending;
